@@ -134,6 +134,16 @@ func (s *scriptReader) Read(p []byte) (int, error) {
 		switch {
 		case s.afterKind == "timeout" || s.afterKind == "mixed" && s.afterEnd%2 == 0:
 			return 0, faultErr([]string{"timeout", "deadline"}[s.afterEnd%2])
+		case s.afterKind == "timeout-empty":
+			// nothing, in both of the ways a serial library says so
+			if s.afterEnd%2 == 0 {
+				return 0, nil
+			}
+			return 0, faultErr("timeout")
+		case s.afterKind == "eof-empty":
+			if s.afterEnd%2 == 0 {
+				return 0, nil
+			}
 		}
 		return 0, io.EOF
 	}
@@ -597,6 +607,17 @@ func monC13(c *child.Ctx, replay json.RawMessage) {
 			st = append(st, chunked(data[p2:], chunk)...)
 			add(faultCase{Steps: st, TimeoutMs: tolMs, WaitMs: 1, Tolerant: true, Note: fmt.Sprintf("interruptions after bytes %d and %d", p1, p2)}, inside[p1] || inside[p2])
 		}
+		// the source reports one interruption at once and the second only after a read
+		// that blocked for longer than the tolerance: it has been silent beyond the
+		// tolerance, the handler stops there
+		if si%2 == 0 {
+			pos := r.Range(0, len(data))
+			st := chunked(data[:pos], chunk)
+			st = append(st, step{Fault: faultKinds[r.Intn(3)]}, step{Fault: faultKinds[r.Intn(3)], DelayMs: 160})
+			st = append(st, chunked(data[pos:], chunk)...)
+			c.Count("stop_scripts_slow_second_fault", 1)
+			add(faultCase{Steps: st, TimeoutMs: 100, WaitMs: 1, StopAfter: pos, WantErrKind: "eof", Note: fmt.Sprintf("after byte %d an interruption, then a read that blocks 160 ms (tolerance 100 ms) before it reports the next", pos)}, inside[pos])
+		}
 		// stop scripts at every boundary (every 2nd in quick): zero tolerance, other error, silence beyond the tolerance
 		stepStop := c.Pick(3, 1)
 		for pos := si % stepStop; pos <= len(data); pos += stepStop {
@@ -626,7 +647,7 @@ func monC13(c *child.Ctx, replay json.RawMessage) {
 					fl = append(fl, faultKinds[r.Intn(3)])
 				}
 				c.Count("stop_scripts_silence_beyond_tolerance", 1)
-				after := []string{"", "timeout", "mixed"}[r.Intn(3)]
+				after := []string{"", "timeout", "mixed", "timeout-empty", "eof-empty"}[r.Intn(5)]
 				if after != "" {
 					c.Count("stop_scripts_silent_source_reporting_fresh_timeouts", 1)
 				}
@@ -667,6 +688,7 @@ func monC13(c *child.Ctx, replay json.RawMessage) {
 	list := suspects.list
 	suspects.list = nil
 	suspects.Unlock()
+	notReproduced := 0
 	for _, k := range list {
 		cj, _ := json.Marshal(k)
 		again := 0
@@ -678,11 +700,22 @@ func monC13(c *child.Ctx, replay json.RawMessage) {
 				why = early
 			}
 		}
-		if again == 3 {
+		switch {
+		case again == 3:
 			c.Violate("gave-up-within-tolerance", why+" - in the batch and again in three solo re-runs ("+k.Note+")", cj)
-		} else {
+		case again == 0:
+			// happened once among dozens of scripts running at the same time and never
+			// again alone: the machine, not the script (the handler compares two readings
+			// of the wall clock; a goroutine that is not scheduled for longer than the
+			// tolerance between them gives up rightly).  Counted, and limited below.
+			notReproduced++
+			c.Count("early_give_ups_not_reproduced_alone", 1)
+		default:
 			c.Inconclusive(fmt.Sprintf("the handler gave up early once on a tolerant script but only %d of 3 solo re-runs did: %s", again, k.Note))
 		}
 		c.Count("suspect_scripts_rerun_alone", 1)
+	}
+	if notReproduced > 3+len(cases)/200 {
+		c.Inconclusive(fmt.Sprintf("%d of %d scripts made the handler give up early in the batch and never alone: too many to blame on the machine", notReproduced, len(cases)))
 	}
 }
